@@ -58,15 +58,18 @@ ASSUMPTIONS = [
     "demanded either way (streams are compared modulo that)",
 ]
 HEALTH = {
-    "fuse:dep-on-clashing-id": 0.03,
-    "fuse:fresh-id-taken": 0.01,
-    "disamb:must-rename": 0.05,
-    "disamb:must-keep-clash": 0.01,
-    "rw:lhs-index-only-var": 0.01,
+    "fuse:dep-on-clashing-id": 0.04,
+    "fuse:fresh-id-taken": 0.03,
+    "fuse:forward-dependency": 0.03,
+    "disamb:must-rename": 0.04,
+    "disamb:must-keep-clash": 0.015,
+    "disamb:filter-subset": 0.004,
+    "rw:lhs-index-only-var": 0.02,
     "rw:condition-only-var": 0.01,
-    "dot:redundant-edge": 0.02,
-    "dot:redundant-only-via-long-path": 0.005,
-    "hist:prev-prev": 0.002,
+    "dot:redundant-edge": 0.03,
+    "dot:redundant-only-via-long-path": 0.01,
+    "hist:prev-prev": 0.005,
+    "hist:steps>=6": 0.005,
 }
 TIMEOUT_IS_FAIL = True
 CASE_TIMEOUT_S = 30
